@@ -515,6 +515,11 @@ nni_aio_finish_impl(
 	nni_mtx_lock(&eq->eq_mtx);
 
 	nni_aio_expire_rm(aio);
+	if (aio->a_expiring) {
+		// tell the expire loop (which holds this aio in its batch)
+		// that the operation it picked is over
+		aio->a_expire_skip = true;
+	}
 	aio->a_result     = rv;
 	aio->a_count      = count;
 	aio->a_cancel_fn  = NULL;
@@ -727,12 +732,13 @@ nni_aio_expire_loop(void *arg)
 
 		for (uint32_t i = 0; i < exp_idx; i++) {
 			aio = expires[i];
-			if ((!q->eq_stop) && (aio->a_expire >= now)) {
+			if (aio->a_expire_skip) {
 				// While we were cancelling earlier members of
 				// the batch this one completed (and possibly
 				// was started again with a new deadline): it
 				// is no longer ours to expire.
-				aio->a_expiring = false;
+				aio->a_expire_skip = false;
+				aio->a_expiring    = false;
 				continue;
 			}
 			if (q->eq_stop) {
@@ -779,7 +785,8 @@ nni_aio_expire_loop(void *arg)
 				NNI_VERIF_PT(NNI_VP_AIO_EXPIRE_BETWEEN);
 				nni_mtx_lock(mtx);
 			}
-			aio->a_expiring = false;
+			aio->a_expire_skip = false;
+			aio->a_expiring    = false;
 		}
 		nni_cv_wake(cv);
 	}
